@@ -31,6 +31,17 @@ def wrap(sections, cls=64, le=True, machine=62, etype=3, compress=None, level=6,
         dynstr = img.add(eg.Sec('.dynstr', 3, data=dst.bytes(), flags=2, addr=0x400500))
         dynsym = img.add(eg.Sec('.dynsym', 11, data=b''.join(f.sym(doffs[i], 0x402000 + i, i, 0x12 if i else 0, 0, 0) for i in range(len(dn))), flags=2,
                                 addr=0x400400, link=dynstr.index, info=1, entsize=f.symsize, align=8))
+        # version tables: two definitions (the second with a parent), one requirement with two versions
+        o = f.o
+        vnames = [dst.add(n) for n in ('libself.so.1', 'VER_2', 'VER_1', 'GLIBC_2.2.5', 'GLIBC_2.34')]
+        vd = struct.pack(o + 'HHHHIII', 1, 1, 1, 1, 0x0d696911, 20, 28) + struct.pack(o + 'II', vnames[0], 0)
+        vd += struct.pack(o + 'HHHHIII', 1, 0, 2, 2, 0x0d696912, 20, 0) + struct.pack(o + 'II', vnames[1], 8) + struct.pack(o + 'II', vnames[2], 0)
+        vn = struct.pack(o + 'HHIII', 1, 2, lib, 16, 0) + struct.pack(o + 'IHHII', 0x09691a75, 0, 3, vnames[3], 16) + struct.pack(o + 'IHHII', 0x069691b4, 0, 4, vnames[4], 0)
+        dynstr.data = dst.bytes()
+        versym = img.add(eg.Sec('.gnu.version', 0x6fffffff, data=b''.join(struct.pack(o + 'H', v) for v in (0, 3, 2, 0x8004, 1)), flags=2, addr=0x400700, link=dynsym.index,
+                                entsize=2, align=2))
+        verdef = img.add(eg.Sec('.gnu.version_d', 0x6ffffffd, data=vd, flags=2, addr=0x400740, link=dynstr.index, info=2, align=4))
+        verneed = img.add(eg.Sec('.gnu.version_r', 0x6ffffffe, data=vn, flags=2, addr=0x4007c0, link=dynstr.index, info=1, align=4))
         ghash = img.add(eg.Sec('.gnu.hash', 0x6ffffff6, data=hashes.build_gnu(dn, 1, 2, 1, 6, cls, le), flags=2, addr=0x400380, link=dynsym.index, align=8))
         shash = img.add(eg.Sec('.hash', 5, data=hashes.build_sysv(dn, 3, le), flags=2, addr=0x400300, link=dynsym.index, entsize=4, align=8))
         tags = [(1, lib), (5, 0x400500), (6, 0x400400), (10, len(dst.bytes())), (11, f.symsize), (14, lib), (0x6ffffef5, 0x400380), (4, 0x400300), (0, 0)]
